@@ -275,15 +275,18 @@ inductive HOp where
 inductive HRes where
   | added (b : Bool)
   | pairs (l : List (Nat × Nat))
+  | raised (e : Err)       -- the call raised; the caller goes on using the same object
   deriving Repr, DecidableEq
 
-/-- a read-out traverses the tree as it is NOW and leaves it unchanged (the object keeps no other state) -/
+/-- a read-out traverses the tree as it is NOW and leaves it unchanged (the object keeps no other state);
+an `add_core` that raises (`ValueError`: the range check is the first statement and nothing was touched)
+leaves the tree as it was and the history goes on -/
 def histStep (d : Nat) (st : RTree × List HRes) (op : HOp) : Except Err (RTree × List HRes) :=
   match op with
   | .add x y p =>
-    if x < 0 ∨ y < 0 ∨ p < 0 then .error .valueError
+    if x < 0 ∨ y < 0 ∨ p < 0 then .ok (st.1, st.2 ++ [.raised .valueError])
     else match addCore d st.1 x.toNat y.toNat p.toNat with
-      | .error e => .error e
+      | .error e => .ok (st.1, st.2 ++ [.raised e])
       | .ok (t', b) => .ok (t', st.2 ++ [.added b])
   | .read => .ok (st.1, st.2 ++ [.pairs (emit d st.1)])
 
@@ -300,6 +303,7 @@ def asHOp (j : Json) : R HOp := do
 def hresToJson : HRes → Json
   | .added b => Json.bool b
   | .pairs l => jPairs l
+  | .raised e => Json.str (errName e)
 
 def handle (op : String) (j : Json) : R Json := do
   match op with
